@@ -13,7 +13,7 @@ MANIFEST = {
  'technique': 'Lean 4 proof (structural induction on token trees / plugin trees) + differential correspondence on a live bot',
  'design_ref': 'DESIGN.md §6 C14',
 }
-THEOREMS = ['C14.postOrder_nodup', 'C14.eval_order', 'C14.eval_prefix', 'C14.eval_complete', 'C14.eval_postorder',
+THEOREMS = ['C14.postOrder_nodup', 'C14.eval_order', 'C14.eval_prefix', 'C14.eval_complete', 'C14.eval_postorder', 'C14.eval_application',
             'C14.depth_refused', 'C14.depth_error', 'C14.getCommand_prefix', 'C14.getCommand_enabled',
             'C14.owns_not_disabled', 'C14.dispatch_qualified', 'C14.dispatch_ambiguous', 'C14.ambiguous_runs_nothing',
             'C14.dispatch_unique', 'C14.special_table_ok', 'C14.canonicalName_idem']
@@ -112,6 +112,10 @@ class Live(object):
             dp.get(name).setValue(plugin)
         dp.importantPlugins.setValue(w['important'])
 
+    def cfg_line(self, w, ignored0=False):
+        return 'cfg\t%d\t%d\t%d\t%s\t%s\t%d' % (w['maxNesting'], w['maxLen'], w['detailed'], wire.enc(self.error_text),
+                                                wire.enc('IndexError: list index out of range'), ignored0)
+
     def world_lines(self, w):
         """driver lines describing the loaded plugins and the world (read back from the live objects)"""
         L = ['reset']
@@ -132,11 +136,13 @@ class Live(object):
         return L
 
     # ---- running one tree ----
-    def run(self, tokens, private=False):
+    def run(self, tokens, private=False, ignored0=False):
         b = self.b
         b.world.vt_c14_calls = calls = []
         b.world.vt_c14_log = []
         msg = b.ircmsgs.privmsg('test' if private else '#vt', 'x', prefix='al!u@h')
+        if ignored0:
+            msg.tag('ignored')
         crash = None
         try:
             self.cb.NestedCommandsIrcProxy(b.irc, msg, tokens)
@@ -532,8 +538,10 @@ def explore(live, r, n_worlds, per_world, corpus=()):
         for l in live.world_lines(w):
             lines.append(l); pend.append((None, None))
         winfo = dict(w)
-        def add_eval(tokens, kind, check_full=False):
-            res = live.run(tokens, private=False)
+        def add_eval(tokens, kind, check_full=False, ignored0=False):
+            res = live.run(tokens, private=False, ignored0=ignored0)
+            if ignored0:
+                lines.append(live.cfg_line(w, True)); pend.append((None, None))
             ok, msg = oracle_order(tokens, res, w)
             if ok:
                 ok, msg = oracle_ambiguous(live, res)
@@ -553,6 +561,8 @@ def explore(live, r, n_worlds, per_world, corpus=()):
                 mc, paths = model_calls(log)
                 return cut_foreign(canon_model(f[0]), mc, ig)
             add(c, 'eval\t' + enc_tree(tokens), post)
+            if ignored0:
+                lines.append(live.cfg_line(w, False)); pend.append((None, None))
         def add_feed(tokens):
             # end to end (C13 tokenizer + Owner.doPrivmsg + proxy): same calls and reply as the direct evaluation;
             # with supybot.commands.nested off the brackets are literal text: at most the line's own command runs
@@ -576,7 +586,7 @@ def explore(live, r, n_worlds, per_world, corpus=()):
             cases.append(Case(dict(op='feed', text=text, tokens=tokens, world=winfo), oracle_ok=ok, oracle_msg=msg, kind='feed',
                               tags=('feed', 'nested' if any(isinstance(x, list) for x in tokens) else 'flat')))
         for item in corpus:
-            add_eval(item['tokens'], 'corpus')
+            add_eval(item['tokens'], 'corpus', ignored0=item.get('ignored0', False))
         for _ in range(per_world.get('full', 0)):
             t = gen_full(r, r.randint(0, 4))
             add_eval(t, 'full', check_full=full_applicable(w))
@@ -584,6 +594,9 @@ def explore(live, r, n_worlds, per_world, corpus=()):
             add_eval(gen_mixed(r, r.randint(0, 4)), 'mixed')
         for _ in range(per_world.get('feed', 0)):
             add_feed(gen_full(r, r.randint(0, 3)) if r.random() < 0.6 else gen_mixed(r, r.randint(0, 3)))
+        for _ in range(per_world.get('ign', 0)):
+            # the message already carries the `ignored` tag (left by an earlier evaluation of the same message)
+            add_eval(gen_mixed(r, r.randint(1, 3)), 'ign', ignored0=True)
         for _ in range(per_world.get('deep', 0)):
             add_eval(gen_deep(r, w['maxNesting']), 'deep', check_full=full_applicable(w))
         names = sorted(set(BARE + [x for rec in live.records for x in rec[4][:6]] + [rec[2].lower() for rec in live.records]))
@@ -668,7 +681,7 @@ def load_corpus():
     except OSError:
         return []
 
-QUICK = dict(full=30, mixed=60, deep=10, feed=12, disp=80, canon=10)
+QUICK = dict(full=30, mixed=60, deep=10, feed=12, ign=6, disp=80, canon=10)
 
 def run(ctx):
     build = leanbuild.ensure(PROPERTY, THEOREMS, thorough=ctx.thorough, extractors=['CanonicalName'])
